@@ -427,6 +427,7 @@ void ppinit(void);
 
 void next(void);
 bool peek(int);
+void unget(struct token *);
 char *expect(enum tokenkind, const char *);
 bool consume(int);
 
